@@ -51,4 +51,11 @@ man = {
     'notes': 'See DESIGN.md. Known findings: known_findings.json. Seeded changes used to test the checks: seeded/.',
 }
 json.dump(man, open(os.path.join(VERIF, 'MANIFEST.json'), 'w'), indent=1)
+# known findings: one committed file assembled from the per-property files
+kf = {'findings': [], 'fixed': []}
+for f in sorted(glob.glob(os.path.join(VERIF, 'known_findings.d', '*.json'))):
+    d = json.load(open(f))
+    kf['findings'] += d.get('findings', [])
+    kf['fixed'] += d.get('fixed', [])
+json.dump(kf, open(os.path.join(VERIF, 'known_findings.json'), 'w'), indent=1)
 print('claimed:', [c['property_id'] for c in checks])
